@@ -124,6 +124,9 @@ func (e *End) Close() error {
 
 func (e *End) IsClosed() bool { return e.closed }
 
+// CloseWithStatus makes the end usable under transport/reconnect (the status is not modelled).
+func (e *End) CloseWithStatus(transport.CloseStatus) error { return e.Close() }
+
 func (e *End) RxBytesCounterValue() uint64 { return 0 }
 func (e *End) TxBytesCounterValue() uint64 { return e.wr.n }
 func (e *End) AsUnreliable() (transport.UnreliableTransport, bool) {
